@@ -90,7 +90,7 @@ def graph_paths(ctx, spec_dir, module, cfg, overrides=None, timeout=None, extra_
     if overrides:
         cfgp = make_cfg(cfgp, overrides, ctx.scratch, "%s_%s" % (module, os.path.basename(cfg)))
     dot = os.path.join(ctx.scratch, "%s_%d" % (module, len(os.listdir(ctx.scratch))))
-    r = tlc.run(spec_dir, module, cfgp, timeout=timeout or ctx.pick(300, 1500),
+    r = tlc.run(spec_dir, module, cfgp, timeout=timeout or ctx.pick(900, 3000),
                 extra=["-dump", "dot,actionlabels", dot], deadlock=False)
     if not r.ok:
         raise Machinery("generation spec reported %s" % r.violation)
@@ -402,14 +402,19 @@ class StreamReal:
                 raise ValueError(act)
         except Exception as e:          # an exception of the code under test is an observation
             self.order.append("raised:" + type(e).__name__)
-        try:
-            s.pump(limit=300)
-        except RuntimeError:
-            # readiness keeps being reported and handled without progress: on a real selector loop
-            # this is a busy loop.  Reported as an observation, never a harness crash.
-            p = self.proj()
-            p["st"] = "livelock"
-            return p
+        for _ in range(100000):
+            before = (len(s.inq), sum(len(c) for c in s.inq), len(s.out), s.closed(), s._read_buffer_size)
+            try:
+                s.pump(limit=64)
+                break
+            except RuntimeError:
+                after = (len(s.inq), sum(len(c) for c in s.inq), len(s.out), s.closed(), s._read_buffer_size)
+                if after == before:
+                    # readiness keeps being reported and handled without any progress: on a real
+                    # selector loop this is a busy loop.  An observation, never a harness crash.
+                    p = self.proj()
+                    p["st"] = "livelock"
+                    return p
         return self.proj()
 
     def close(self):
